@@ -31,7 +31,7 @@ import (
 var wantedFuncs = []string{
 	"tokAllowedChar", "resCharSigFlag", "multipleValsOk",
 	"HdrFlags.Test", "HdrFlags.Set", "HdrFlags.Clear", "HdrFlags.Reset",
-	"PField.Empty", "PField.Set", "PField.Extend", "PField.Reset", "SIPMethod.Name", "hexDigToI", "skipCRLF",
+	"PField.Empty", "PField.Set", "PField.Extend", "PField.Reset", "SIPMethod.Name", "hexDigToI", "skipCRLF", "skipWS", "skipToken", "skipTokenDelim", "skipLine",
 	"PCallIDBody.Parsed", "PCallIDBody.Empty", "PCallIDBody.Pending",
 	"PUIntBody.Parsed", "PUIntBody.Empty", "PUIntBody.Pending",
 	"PCSeqBody.Parsed", "PCSeqBody.Empty", "PCSeqBody.Pending",
@@ -59,11 +59,16 @@ type ftr struct {
 	nores  bool            // no result: returns the (pointer) receiver value
 	names  map[string]bool // every variable name declared so far (parameters, results, locals): a second declaration
 	// of a name (shadowing in an inner block) is outside the subset
-	wrL  []string // struct pointer receiver: the fields the body assigns, in order of first assignment
-	wrT  []string
-	mon  bool // the body reads a slice element: results are `Option` (none = index out of range, Go would panic)
-	tmp  int
-	logs map[string]bool
+	aux   string          // auxiliary definitions (loops), emitted before the function
+	fname string          // Lean name of the function being translated
+	parB  []string        // binders of the parameters, in order
+	parN  []string        // their Lean names
+	done  map[string]bool // functions translated so far -> result is an Option
+	wrL   []string        // struct pointer receiver: the fields the body assigns, in order of first assignment
+	wrT   []string
+	mon   bool // the body reads a slice element: results are `Option` (none = index out of range, Go would panic)
+	tmp   int
+	logs  map[string]bool
 }
 
 func leanType(t types.Type) string {
@@ -324,8 +329,27 @@ func (f *ftr) fresh(p string) string {
 
 // mexpr: the expression as a Lean term of type `Option τ` (only used for functions that index a slice): `none` exactly when
 // Go would panic with an index out of range; `&&` / `||` keep their short-circuit evaluation.
+// needsMon: the expression contains an index expression or a call of a translated function whose result is an Option
+func (f *ftr) needsMon(n ast.Node) bool {
+	found := false
+	ast.Inspect(n, func(x ast.Node) bool {
+		switch y := x.(type) {
+		case *ast.IndexExpr:
+			found = true
+		case *ast.CallExpr:
+			if id, ok := y.Fun.(*ast.Ident); ok {
+				if m, ok := f.done[id.Name]; ok && m {
+					found = true
+				}
+			}
+		}
+		return !found
+	})
+	return found
+}
+
 func (f *ftr) mexpr(e ast.Expr) string {
-	if !hasIndex(e) {
+	if !f.needsMon(e) {
 		return "(some " + f.expr(e) + ")"
 	}
 	switch x := e.(type) {
@@ -357,6 +381,20 @@ func (f *ftr) mexpr(e ast.Expr) string {
 		if tv, ok := f.info.Types[x.Fun]; ok && tv.IsType() && len(x.Args) == 1 {
 			a := f.fresh("a")
 			return "(Option.bind " + f.mexpr(x.Args[0]) + " (fun " + a + " => some " + f.conv(x, a) + "))"
+		}
+		if id, ok := x.Fun.(*ast.Ident); ok {
+			if m, ok := f.done[id.Name]; ok && m {
+				// a call of an already translated function (its result is an Option): bind the arguments left to right
+				var names []string
+				for range x.Args {
+					names = append(names, f.fresh("p"))
+				}
+				out := "Sipsp.Gen.F." + id.Name + " " + strings.Join(names, " ")
+				for i := len(x.Args) - 1; i >= 0; i-- {
+					out = "Option.bind " + f.mexpr(x.Args[i]) + " (fun " + names[i] + " => " + out + ")"
+				}
+				return "(" + out + ")"
+			}
 		}
 	}
 	bail("expression %T over an index", e)
@@ -447,6 +485,39 @@ func (f *ftr) stmts(ss []ast.Stmt, k string, ind string) string {
 			}
 			c := f.fresh("c")
 			return "(Option.bind " + f.mexpr(x.Cond) + " (fun " + c + " =>\n" + ind + "  if " + c + " then\n" + ind + "    " + thenB + "\n" + ind + "  else\n" + ind + "    " + elseB + "))"
+		case *ast.ForStmt:
+			// `for ; cond; v++ { }` with an empty body: a scanning loop. It becomes a recursive auxiliary function over
+			// explicit FUEL (len(first slice parameter) + 1 iterations); running out of fuel is `none`, so a result
+			// `some r` means the real loop ends with r as well — the tie theorem has to show that the fuel suffices.
+			inc, okp := x.Post.(*ast.IncDecStmt)
+			if x.Init != nil || x.Cond == nil || !okp || inc.Tok != token.INC || len(x.Body.List) != 0 {
+				bail("loop form")
+			}
+			vid, okv := inc.X.(*ast.Ident)
+			if !okv || leanType(f.typeOf(vid)) != "Int" {
+				bail("loop variable")
+			}
+			f.tmp++
+			lname := fmt.Sprintf("%s_loop%d", f.fname, f.tmp)
+			var fixB, fixN []string
+			sizeOf := ""
+			for i, n := range f.parN {
+				if n == "v_"+vid.Name {
+					continue
+				}
+				fixB = append(fixB, f.parB[i])
+				fixN = append(fixN, n)
+				if sizeOf == "" && strings.Contains(f.parB[i], "(Array UInt8)") {
+					sizeOf = n
+				}
+			}
+			if sizeOf == "" {
+				bail("loop without a slice to bound it")
+			}
+			c := f.fresh("c")
+			f.aux += fmt.Sprintf("/-- the scanning loop of `%s`, with explicit fuel -/\ndef %s %s : Nat → Int → Option Int\n  | 0, _ => none\n  | fuel + 1, v_%s => (Option.bind %s (fun %s => if %s then %s %s fuel (v_%s + 1) else some v_%s))\n\n",
+				f.fname, lname, strings.Join(fixB, " "), vid.Name, f.mexpr(x.Cond), c, c, lname, strings.Join(fixN, " "), vid.Name, vid.Name)
+			return "(Option.bind (" + lname + " " + strings.Join(fixN, " ") + " (" + sizeOf + ".size + 1) v_" + vid.Name + ") (fun v_" + vid.Name + " =>\n" + ind + f.stmts(rest, k, ind) + "))"
 		case *ast.BlockStmt:
 			return f.stmts(append(append([]ast.Stmt{}, x.List...), rest...), k, ind)
 		case *ast.ExprStmt:
@@ -632,6 +703,7 @@ func emitFuncs(files []*ast.File, info *types.Info, pkg *types.Package) (string,
 	}
 	var sb strings.Builder
 	var done []string
+	doneMon := map[string]bool{} // translated so far: name -> its result is an Option
 	failed := map[string]string{}
 	wanted := wantedFuncs
 	if v := os.Getenv("EXTRACT_FUNCS"); v != "" { // for testing the translator on a scratch package
@@ -653,8 +725,9 @@ func emitFuncs(files []*ast.File, info *types.Info, pkg *types.Package) (string,
 					panic(r)
 				}
 			}()
-			f := &ftr{info: info, pkg: pkg, fields: map[string]bool{}, names: map[string]bool{},
-				logs: map[string]bool{"BUG": true, "DBG": true, "ERR": true, "WARN": true}}
+			f := &ftr{info: info, pkg: pkg, fields: map[string]bool{}, names: map[string]bool{}, done: doneMon,
+				fname: strings.ReplaceAll(name, ".", "_"),
+				logs:  map[string]bool{"BUG": true, "DBG": true, "ERR": true, "WARN": true}}
 			var params []string
 			if fd.Recv != nil {
 				rf := fd.Recv.List[0]
@@ -679,6 +752,8 @@ func emitFuncs(files []*ast.File, info *types.Info, pkg *types.Package) (string,
 				for _, nm := range p.Names {
 					f.declare(nm.Name)
 					params = append(params, "(v_"+nm.Name+" : "+leanType(info.Defs[nm].Type())+")")
+					f.parB = append(f.parB, "(v_"+nm.Name+" : "+leanType(info.Defs[nm].Type())+")")
+					f.parN = append(f.parN, "v_"+nm.Name)
 				}
 			}
 			var rts []string
@@ -743,7 +818,7 @@ func emitFuncs(files []*ast.File, info *types.Info, pkg *types.Package) (string,
 				f.nores = true
 				rts = []string{leanType(info.Defs[fd.Recv.List[0].Names[0]].Type().(*types.Pointer).Elem())}
 			}
-			f.mon = f.mon || hasIndex(fd.Body) || hasPanic(fd.Body)
+			f.mon = f.mon || hasIndex(fd.Body) || hasPanic(fd.Body) || f.needsMon(fd.Body)
 			if f.mon && (len(f.res) > 0 || f.nores) {
 				bail("named results / pointer receiver in a function that indexes a slice")
 			}
@@ -764,13 +839,16 @@ func emitFuncs(files []*ast.File, info *types.Info, pkg *types.Package) (string,
 			if f.mon {
 				rt = "Option (" + rt + ")"
 			}
-			return fmt.Sprintf("def %s %s : %s :=\n  %s\n", lname, strings.Join(params, " "), rt, body), ""
+			if !strings.Contains(name, ".") {
+				doneMon[name] = f.mon
+			}
+			return f.aux + "/-- translated from the Go source of `" + name + "` -/\n" + fmt.Sprintf("def %s %s : %s :=\n  %s\n", lname, strings.Join(params, " "), rt, body), ""
 		}()
 		if err != "" {
 			failed[name] = err
 			continue
 		}
-		sb.WriteString("/-- translated from the Go source of `" + name + "` -/\n" + text + "\n")
+		sb.WriteString(text + "\n")
 		done = append(done, name)
 	}
 	var fk []string
